@@ -18,7 +18,7 @@ import (
 func init() {
 	core.Register(&core.Prop{
 		ID: "C14",
-		Rule: "case = one simple open line string (monotone, incrementally built simple walk, spiral, axis-parallel, 2-vertex; one case in seven puts all 2-3 vertices inside one star-shaped hole, each out in a different arm of it) or multi-line string of 2-3 members that are mutually disjoint or (one case in ten) touch at their end points only - an open chain cut in two, or two arcs closing a loop -, and one valid polygonal clip shape from the C01 generators (star with 0-3 holes, comb, staircase, multi-polygon, box; presented as Polygon, MultiPolygon or *Bounds), in general position (no line vertex within 1e-7 d of the boundary, no polygon vertex within 1e-7 d of the line); " +
+		Rule: "case = one simple open line string (monotone, incrementally built simple walk, spiral, axis-parallel, 2-vertex; one case in seven puts all 2-3 vertices inside one star-shaped hole, each out in a different arm of it) or multi-line string of 2-3 members that are mutually disjoint or (one case in ten) touch at their end points only - an open chain cut in two, or two arcs closing a loop, half of those with a third member ending at one of the two junctions, in any order and direction -, and one valid polygonal clip shape from the C01 generators (star with 0-3 holes, comb, staircase, multi-polygon, box; presented as Polygon, MultiPolygon or *Bounds), in general position (no line vertex within 1e-7 d of the boundary, no polygon vertex within 1e-7 d of the line); " +
 			"oracle = harness reference clipping (exact crossing tests, intersection parameters, exact midpoint membership per sub-interval): inside length L*, emptiness, and for every returned vertex distance to the line and membership in / distance to the polygon; " +
 			"an evaluation is one Clip call judged; non-trivial = line that crosses the polygon boundary at least twice with 0 < L* < length; distinct by input hash",
 		Assumptions: []string{"general position enforced by the harness", "tolerances 1e-9 relative (length) and 1e-9 x diameter (vertex positions)"},
@@ -31,7 +31,7 @@ func init() {
 		Run: run,
 		Floors: func(t string) map[string]int64 {
 			return map[string]int64{"cfg.entirely_inside": 100, "cfg.entirely_outside_bbox_overlap": 100, "cfg.entirely_outside_bbox_disjoint": 100, "cfg.crosses_hole": 100, "cfg.enters_several_times": 200, "cfg.two_vertex_line": 100,
-				"recv.MultiLineString": 300, "arg.*Bounds": 100, "arg.MultiPolygon": 300, "arg.Polygon": 300, "result.vertices_checked": 5000, "line.long": 100, "line.axis_parallel": 500, "line.all_vertices_in_one_hole": 300, "line.vertices_around_one_hole": 300, "line.long_approach>=511": 150, "line.members_close_a_loop": 100, "line.members_share_an_end_point": 100, "storage.paths_share_one_backing_array": 500}
+				"recv.MultiLineString": 300, "arg.*Bounds": 100, "arg.MultiPolygon": 300, "arg.Polygon": 300, "result.vertices_checked": 5000, "line.long": 100, "line.axis_parallel": 500, "line.all_vertices_in_one_hole": 300, "line.vertices_around_one_hole": 300, "line.long_approach>=511": 150, "line.members_close_a_loop": 100, "line.loop_with_a_member_ending_at_a_junction": 40, "line.members_share_an_end_point": 100, "storage.paths_share_one_backing_array": 500}
 		},
 	})
 }
@@ -258,6 +258,44 @@ func run(c *core.Ctx, idx int) {
 		if r.Bool() {
 			lines = append(lines, upper, lower) // closed loop
 			c.Count("line.members_close_a_loop")
+			if r.Bool() {
+				// and a third member that ends at one of the two junctions (a roundabout drawn as two
+				// arcs, and its approach road): radially outward from the junction, then on outside the loop
+				a := th
+				if r.Bool() {
+					a = th + math.Pi
+				}
+				j := geom.Point{X: cx + ra*math.Cos(a), Y: cy + rb*math.Sin(a)} // = upper[0] or upper[last] (k = 1 at the ends)
+				if a == th {
+					j = upper[0]
+				} else {
+					j = upper[len(upper)-1]
+				}
+				spur := []geom.Point{j}
+				k := r.Range(1.3, 1.6)
+				spur = append(spur, geom.Point{X: cx + k*ra*math.Cos(a), Y: cy + k*rb*math.Sin(a)})
+				for n := r.Intn(3); n > 0; n-- {
+					k += r.Range(0.3, 1)
+					a2 := a + r.Range(-0.3, 0.3)
+					spur = append(spur, geom.Point{X: cx + k*ra*math.Cos(a2), Y: cy + k*rb*math.Sin(a2)})
+				}
+				lines = append(lines, spur)
+				c.Count("line.loop_with_a_member_ending_at_a_junction")
+			}
+			// any order, any directions
+			for i, l := range lines {
+				if r.Bool() {
+					rv := make([]geom.Point, len(l))
+					for q := range l {
+						rv[len(l)-1-q] = l[q]
+					}
+					lines[i] = rv
+				}
+			}
+			for i := len(lines) - 1; i > 0; i-- {
+				q := r.Intn(i + 1)
+				lines[i], lines[q] = lines[q], lines[i]
+			}
 		} else {
 			k := r.IntRange(1, len(upper)-1)
 			whole := append(append([]geom.Point{}, upper...), lower[len(lower)-2])
